@@ -79,7 +79,8 @@ func (e *EAP) DecodeFromBytes(data []byte, df gopacket.DecodeFeedback) error {
 // See the docs for gopacket.SerializableLayer for more info.
 func (e *EAP) SerializeTo(b gopacket.SerializeBuffer, opts gopacket.SerializeOptions) error {
 	size := len(e.TypeData) + 4
-	if size > 4 {
+	if size > 4 || e.Type != 0 {
+		// a packet with a type octet (which may come without any type data)
 		size++
 	}
 	if opts.FixLengths {
